@@ -130,6 +130,14 @@ func (o *OpDesc) Build() stackage.Operator {
 	if o.User {
 		return UserOp{o.Txt, o.Ctx}
 	}
+	switch o.Code {
+	case 100:
+		return EnumOp(0) // operators whose Go zero value is a perfectly good operator
+	case 101:
+		return UnitOp{}
+	case 102:
+		return EnumOp(1)
+	}
 	return stackage.ComparisonOperator(o.Code)
 }
 
@@ -226,38 +234,46 @@ func (n *TNode) BuildStack() stackage.Stack {
 	if n.Fifo {
 		s.SetFIFO(true)
 	}
-	if n.Paren {
-		s.SetParen(true)
+	settings := func() {
+		applyOpt(n.Paren, func(b ...bool) { s.SetParen(b...) }, func(b ...bool) { s.Paren(b...) })
+		applyOpt(n.Fold, func(b ...bool) { s.SetFold(b...) }, func(b ...bool) { s.Fold(b...) })
+		applyOpt(n.NoPad, func(b ...bool) { s.SetNoPadding(b...) }, func(b ...bool) { s.NoPadding(b...) })
+		applyOpt(n.LeadOnce, func(b ...bool) { s.SetLeadOnce(b...) }, func(b ...bool) { s.LeadOnce(b...) })
+		applyOpt(n.Neg, func(b ...bool) { s.SetNegativeIndices(b...) }, func(b ...bool) { s.NegativeIndices(b...) })
+		applyOpt(n.Fwd, func(b ...bool) { s.SetForwardIndices(b...) }, func(b ...bool) { s.ForwardIndices(b...) })
+		if n.Sym != "" {
+			if BuildStyle%2 == 1 {
+				s.Symbol(n.Sym)
+			} else {
+				s.SetSymbol(n.Sym)
+			}
+		}
+		if n.Delim != "" {
+			s.SetDelimiter(n.Delim)
+		}
+		for _, e := range n.Enc {
+			if BuildStyle%2 == 1 {
+				s.Encap(append([]string{}, e...))
+			} else {
+				s.SetEncap(append([]string{}, e...))
+			}
+		}
 	}
-	if n.Fold {
-		s.SetFold(true)
-	}
-	if n.NoPad {
-		s.SetNoPadding(true)
-	}
-	if n.LeadOnce {
-		s.SetLeadOnce(true)
-	}
-	if n.Neg {
-		s.SetNegativeIndices(true)
-	}
-	if n.Fwd {
-		s.SetForwardIndices(true)
-	}
-	if n.Sym != "" {
-		s.SetSymbol(n.Sym)
-	}
-	if n.Delim != "" {
-		s.SetDelimiter(n.Delim)
-	}
-	for _, e := range n.Enc {
-		s.SetEncap(append([]string{}, e...))
+	if BuildStyle != 4 {
+		settings()
 	}
 	for _, k := range n.Kids {
 		s.Push(k.Build())
 	}
+	if BuildStyle == 4 {
+		settings() // options chosen in the middle of a history: the same configuration in the end
+	}
 	if n.Mutex {
-		s.SetMutex()
+		if BuildStyle%2 == 1 {
+			s.Mutex()
+		} else {
+			s.SetMutex()
+		}
 	}
 	if n.NoNest {
 		s.SetNoNesting(true)
@@ -288,6 +304,95 @@ func (n *TNode) BuildStack() stackage.Stack {
 
 var errPolicyRejects = fmt.Errorf("validity policy rejects this stack")
 
+// BuildStyle selects HOW a description's options are applied (set per case by the driver hook; the resulting
+// configuration is the same for every style): 0 Set...(true); 1 the deprecated spelling with true; 2 Set...() toggle form;
+// 3 deprecated toggle form; 4 like 0 but after the elements have been pushed; 5 set, clear, set again - and options the
+// description leaves off are switched on and off again.
+var BuildStyle int
+
+func applyOpt(want bool, set, dep func(...bool)) {
+	switch BuildStyle {
+	case 1:
+		if want {
+			dep(true)
+		}
+	case 2:
+		if want {
+			set()
+		}
+	case 3:
+		if want {
+			dep()
+		}
+	case 5:
+		set(true)
+		dep(false)
+		if want {
+			set(true)
+		}
+	default:
+		if want {
+			set(true)
+		}
+	}
+}
+
+// AutoMutex: in a quarter of the cases of every single-goroutine monitor, each stack the harness creates through NewStack
+// has its mutex enabled. Together with the lock watcher below this turns every monitor into a detector of calls that
+// re-acquire a lock they hold (certain deadlock) or return with a lock still held.
+var AutoMutex bool
+
+type reentrantLockAll struct{ id uintptr }
+
+func (r reentrantLockAll) String() string {
+	return fmt.Sprintf("re-entrant acquisition of stack lock #%x by the goroutine that holds it (certain deadlock)", r.id)
+}
+
+var lockWatchHeld = map[uintptr]int{}
+
+func lockWatch(point string, id uintptr) {
+	switch point {
+	case "lock.want":
+		if lockWatchHeld[id] > 0 {
+			lockWatchHeld[id] = 0
+			panic(reentrantLockAll{id}.String())
+		}
+	case "lock.held":
+		lockWatchHeld[id]++
+	case "lock.released":
+		if lockWatchHeld[id] > 0 {
+			lockWatchHeld[id]--
+		}
+	}
+}
+
+func init() {
+	core.BeforeCase = func(c *core.Ctx, m *core.Monitor, idx int) {
+		BuildStyle = (idx / 3) % 6
+		AutoMutex = false
+		if !m.Race {
+			// (C10 and C11 run several goroutines against one structure and bring their own lock monitors)
+			AutoMutex = (idx/5)%4 == 0
+			for k := range lockWatchHeld {
+				delete(lockWatchHeld, k)
+			}
+			stackage.VerifSetHook(lockWatch)
+		}
+	}
+	core.AfterCase = func(c *core.Ctx, m *core.Monitor, idx int) {
+		if m.Race {
+			return
+		}
+		stackage.VerifSetHook(nil)
+		for id, n := range lockWatchHeld {
+			if n > 0 {
+				c.Violate("lock-left-held", fmt.Sprintf("case %d ended with stack lock #%x still held (%d): the next locking call on that stack would never return", idx, id, n), map[string]any{"idx": idx})
+				break
+			}
+		}
+	}
+}
+
 // BuildCond instantiates a condition node as a native Condition.
 func (n *TNode) BuildCond() stackage.Condition {
 	buildEnter()
@@ -301,14 +406,14 @@ func (n *TNode) BuildCond() stackage.Condition {
 	if n.Expr != nil {
 		c.SetExpression(n.Expr.Build())
 	}
-	if n.Paren {
-		c.SetParen(true)
-	}
-	if n.NoPad {
-		c.SetNoPadding(true)
-	}
+	applyOpt(n.Paren, func(b ...bool) { c.SetParen(b...) }, func(b ...bool) { c.Paren(b...) })
+	applyOpt(n.NoPad, func(b ...bool) { c.SetNoPadding(b...) }, func(b ...bool) { c.NoPadding(b...) })
 	for _, e := range n.Enc {
-		c.SetEncap(append([]string{}, e...))
+		if BuildStyle%2 == 1 {
+			c.Encap(append([]string{}, e...))
+		} else {
+			c.SetEncap(append([]string{}, e...))
+		}
 	}
 	if n.PPol {
 		c.SetPresentationPolicy(func(...any) string { return "<presented condition>" })
